@@ -72,6 +72,9 @@ def _r8_inflight(ctx):
 def run(ctx):
     P = ctx.P
     _r8_inflight(ctx)
+    # clauses shared with other properties: TTLs only age (the cache's lifetime and hit rules), what a truncated relay may drop
+    ctx.include("C06", rules=("R1", "R2", "R3", "R6"))
+    ctx.include("C04", rules=("R3",))
     # ---------------- R1: reply assembled from (query, upstream reply)
     cands = fn_with_sig(P, ["DnsMessage", "DNSPkt"], "DNSPkt")
     n_r1 = 0
@@ -235,6 +238,21 @@ def _r3(ctx):
             ctx.check(okk, "R3", "udp-reply-used-only-if-id-matches", ctx.where(body, st["sp"]),
                       "the UDP upstream reply may be used as the result only on the edge where reply.qid == sent id "
                       "(%d whole-value use(s) checked%s)" % (len(uses), "; not guarded: " + ", ".join(badu) if badu else ""))
+            # R9: a truncated UDP reply (TC set) is a trigger for the TCP retry, never the result: no whole-value use of the reply on the
+            # true edge of `reply.tc` (a partial reply would be cached under a transport-independent key and relayed, TC and all, over TCP)
+            tc_true = []
+            for b3, t3 in body.terms():
+                if t3["k"] != "switch":
+                    continue
+                st3 = single_def_stmt(T, t3["discr"], b3, len(body.blocks[b3]["stmts"]))
+                if st3 is not None and st3["rv"]["k"] == "use" and op_place(st3["rv"]["op"]) == (reply_local, ".tc"):
+                    tc_true.extend((b3, tgt) for v, tgt in cfg.switch_edges(b3) if v is None or v != 0)
+            if tc_true:
+                badt = [P.rel(sp) for b2, sp in uses if b2 in cfg.reach and any(cfg.edge_dominates(e, b2) for e in tc_true)]
+                ctx.check(not badt, "R9", "truncated-udp-reply-never-used-as-the-result", ctx.where(body, st["sp"]),
+                          "on the edge where the UDP reply has TC set, the reply itself is used at %s" % (badt or "-"))
+            else:
+                ctx.bad("R9", "truncated-udp-reply-test-not-found", ctx.where(body, st["sp"]), "no branch on the UDP reply's TC flag found; cannot decide")
     ctx.floor("R3", "id test guarding the UDP reply", n, 1)
 
 
